@@ -162,7 +162,7 @@ func (fr *Frame) appendCall(in *ssa.Call) *GVal {
 	if fresh == nil {
 		fresh = TFalse
 	}
-	if fresh != TTrue && !ex.pure {
+	if !ex.pure {
 		fr.oblige("frame", "append-target-fresh", []string{"C06", "C12", "C13"}, fresh, in.Pos())
 	}
 	sT := fr.term(s)
@@ -252,6 +252,18 @@ func (fr *Frame) mergeReturns(sub *Frame, rt types.Type) *GVal {
 		fr.cur = TFalse
 		fr.reach[fr.curBlock] = TFalse
 		return fr.havocResult(rt, "noreturn")
+	}
+	// with several return points, values living in local regions are materialised in their own state first
+	if len(sub.rets) > 1 {
+		for ri := range sub.rets {
+			r := &sub.rets[ri]
+			ex.st = r.st
+			for k, v := range r.vals {
+				if v.Reg != nil || (v.T == nil && v.Origin != nil) {
+					r.vals[k] = &GVal{T: fr.term(v), Typ: v.Typ, Fresh: v.Fresh}
+				}
+			}
+		}
 	}
 	// state merge
 	if len(sub.rets) == 1 {
